@@ -1480,7 +1480,14 @@ def _argval_eq(a, b):
             return True
     except Exception:
         pass
-    return repr(a) == repr(b) and type(a) is type(b)
+    if repr(a) == repr(b) and type(a) is type(b):
+        return True
+    # constants of a source string are built afresh by every compile: NaN objects differ (and, from 3.10, hash by
+    # identity, which reorders the sets that hold them) - compare by kind and value
+    try:
+        return type(a) is type(b) and canon(a) == canon(b)
+    except Exception:
+        return False
 
 
 def op_x_std(req):
